@@ -164,6 +164,12 @@ def run_prog(ctx):
         if not ctx.mine(i):
             continue
         one(em.enc_actions([(2, b)]), "nested|" + family_of(b))
+    # exhaustive: histories outside any block (sticky code, parked error record)
+    for top, where in em.enum_outside():
+        i += 1
+        if not ctx.mine(i):
+            continue
+        one(em.enc_actions(top), "outside|%s" % (where or "top-level"))
     # sampled: deeper programs
     for _ in range(ctx.n(2500, 60000)):
         prog = em.rand_program(rng, depth=3)
